@@ -1,5 +1,5 @@
 import json, os, re, shutil, subprocess, sys, concurrent.futures
-sys.path.insert(0, '/tmp/wt')
+sys.path.insert(0, os.path.dirname(os.path.abspath(__file__)))
 from needs2 import needs2
 PROPS = ['C%02d' % i for i in range(1, 21)]
 
